@@ -1,8 +1,9 @@
 // C08 — Handles never dangle or alias: cabinet tokens, pooled objects, shared fds (+ lifetime tags).
 //
-// Four independent model-based state machines in one binary:
+// Five independent model-based state machines in one binary:
 //   cabinet       tbox::cabinet::Cabinet<Obj> against "every token ever returned -> object or nothing"
 //   pool          tbox::ObjectPool<Probe<N>>  against ctor/dtor counters, id patterns, address ranges, stats
+//   pool_tree     the same pool used re-entrantly: nodes whose constructor allocs / destructor frees nodes of the same pool, throwing constructors
 //   fd            tbox::util::Fd handle variables against reference-counted cells and a recording close function
 //   lifetime_tag  tbox::LifetimeTag / Watcher against "watcher is alive iff the tag it was taken from still exists"
 // Besides the explicit oracles, ASan/UBSan watch every access, H3 poisons parked pool blocks, and the
@@ -559,6 +560,329 @@ SubDef def = [] {
 }();
 VERIF_REGISTER(&def);
 }  // namespace pool
+
+// =====================================================================================================
+// object pool used re-entrantly: nodes whose constructor allocates, and whose destructor frees, further
+// nodes of the SAME pool; constructors may throw
+// =====================================================================================================
+namespace ptree {
+using tbox::ObjectPool;
+
+enum { CFG, BUILD, DROP, PRUNE, GROW, LEAVES, CHECK, NOPS };
+const int64_t kKeep[] = {0, 1, 2, 64, -1};
+const int kMaxDepth = 3, kMaxKids = 3;
+const size_t kMaxLive = 500, kMaxRoots = 48;
+
+struct Ctx;
+struct Node;
+struct Abort {};   // thrown by a constructor that cannot complete
+
+inline uint64_t mix(uint64_t x) { x ^= x >> 33; x *= 0xff51afd7ed558ccdull; x ^= x >> 33; x *= 0xc4ceb9fe1a85ec53ull; x ^= x >> 33; return x; }
+inline int nkids(uint64_t seed, int depth) { if (depth <= 0) return 0; uint64_t h = mix(seed); return (h & 7) == 0 ? 0 : 1 + (int)((h >> 3) % kMaxKids); }
+inline uint64_t childseed(uint64_t seed, int i) { return mix(seed * 31 + (uint64_t)i + 1); }
+inline size_t plan_count(uint64_t seed, int depth) { size_t n = 1; int k = nkids(seed, depth); for (int i = 0; i < k; ++i) n += plan_count(childseed(seed, i), depth - 1); return n; }
+inline uint8_t npat(uint64_t id, size_t i) { return (uint8_t)(mix(id * 131 + i) >> 24) | 1; }
+
+// The pattern is the FIRST member: a free-list link written into a block that is in use lands on it.
+struct Node {
+  uint8_t pat[16];
+  uint64_t id;
+  Ctx *c;
+  int depth, nchild;
+  Node *child[kMaxKids];
+  Node(Ctx *cx, int depth, uint64_t seed);
+  ~Node();
+  Node(const Node &) = delete;
+  bool intact() const { for (size_t i = 0; i < sizeof pat; ++i) if (pat[i] != npat(id, i)) return false; return true; }
+};
+
+struct Flags { bool nested_on_recycled = false, nested = false, threw = false, threw_with_children = false, grew = false, pruned = false, hit_limit = false;
+               size_t max_live = 0; int64_t keep = 0; uint64_t reclaimed = 0; };
+
+struct Ctx {
+  std::unique_ptr<ObjectPool<Node>> pool;
+  std::vector<void*> orphans;             // storage that was handed to a constructor which then threw (see reclaim_orphans)
+  size_t keep = 0;
+  std::map<uintptr_t, Node*> inuse;       // storage in use: from constructor entry to destructor exit (or constructor abort)
+  std::vector<Node*> roots;
+  std::vector<bool> frames;               // allocs in flight (outermost first): was a parked block available at entry
+  std::string err;                        // first violation observed inside a constructor / destructor
+  uint64_t next_id = 1;
+  int64_t entered = 0, completed = 0, aborted = 0, dtor = 0;   // constructor entries / normal returns / exits by exception; destructor calls
+  size_t m_allocs = 0, m_frees = 0, peak_alloc = 0;
+  // number of parked blocks: [lo, hi].  lo: an alloc takes its block at entry and a failed alloc does not give it back;
+  // hi: the block leaves the free list only when the alloc has succeeded.  Both coincide unless a constructor threw.
+  size_t lo = 0, hi = 0, peak_lo = 0, peak_hi = 0;
+  int64_t build_ordinal = 0, throw_at = -1;
+  Flags f;
+};
+
+Node *tree_alloc(Ctx &c, int depth, uint64_t seed) {
+  bool reuse_lo = c.lo > 0, reuse_hi = c.hi > 0;
+  if (reuse_lo) --c.lo;
+  if (!c.frames.empty()) { c.f.nested = true; for (bool b : c.frames) if (b) c.f.nested_on_recycled = true; }
+  c.frames.push_back(reuse_lo);
+  Node *n;
+  try { n = c.pool->alloc(&c, depth, seed); }
+  catch (...) { c.frames.pop_back(); throw; }
+  c.frames.pop_back();
+  if (reuse_hi && c.hi > 0) --c.hi;
+  ++c.m_allocs;
+  c.peak_alloc = std::max(c.peak_alloc, c.m_allocs - c.m_frees);
+  return n;
+}
+
+void tree_free(Ctx &c, Node *n) {
+  c.pool->free(n);
+  ++c.m_frees;
+  if (c.lo < c.keep) ++c.lo;
+  if (c.hi < c.keep) ++c.hi;
+  if (c.lo == c.keep && c.keep > 0) c.f.hit_limit = true;
+  c.peak_lo = std::max(c.peak_lo, c.lo); c.peak_hi = std::max(c.peak_hi, c.hi);
+}
+
+Node::Node(Ctx *cx, int d, uint64_t seed) {
+  // nothing of *this is written before the storage has been found unused
+  Ctx &c = *cx;
+  ++c.entered;
+  uintptr_t a = (uintptr_t)this;
+  if (c.err.empty()) {
+    auto it = c.inuse.lower_bound(a);
+    const Node *clash = nullptr;
+    if (it != c.inuse.end() && it->first < a + sizeof(Node)) clash = it->second;
+    else if (it != c.inuse.begin() && std::prev(it)->first + sizeof(Node) > a) clash = std::prev(it)->second;
+    if (clash) c.err = fmt("alloc handed out %p which overlaps node id %llu at %p that is still in use (%s)", (void*)this, (unsigned long long)clash->id, (void*)clash,
+                           c.frames.size() > 1 ? "requested from inside a constructor" : "top-level request");
+  }
+  if (!c.err.empty()) return;
+  c.inuse[a] = this;
+  id = c.next_id++; for (size_t i = 0; i < sizeof pat; ++i) pat[i] = npat(id, i);
+  this->c = cx; depth = d; nchild = 0; for (auto &k : child) k = nullptr;
+  int64_t ordinal = c.build_ordinal++;
+  int want = nkids(seed, d);
+  int throw_after = ordinal == c.throw_at ? (int)((mix(seed) >> 20) % (uint64_t)(want + 1)) : -1;
+  try {
+    for (int i = 0; i < want; ++i) {
+      if (i == throw_after) throw Abort();
+      Node *k = tree_alloc(c, d - 1, childseed(seed, i));
+      if (!c.err.empty()) return;
+      child[nchild++] = k;
+      if (!intact()) { c.err = fmt("node id %llu at %p was overwritten while its constructor allocated a child", (unsigned long long)id, (void*)this); return; }
+    }
+    if (throw_after == want) throw Abort();
+  } catch (const Abort &) {
+    // a constructor that cannot complete releases what it acquired; its own storage is no longer in use
+    if (nchild > 0) c.f.threw_with_children = true;
+    for (int i = nchild - 1; i >= 0; --i) tree_free(c, child[i]);
+    c.inuse.erase(a);
+    c.orphans.push_back(this);
+    ++c.aborted; c.f.threw = true;
+    throw;
+  }
+  ++c.completed;
+}
+
+Node::~Node() {
+  Ctx &cx = *c;
+  ++cx.dtor;
+  if (!intact() && cx.err.empty()) cx.err = fmt("node id %llu at %p was disturbed before its destructor ran", (unsigned long long)id, (void*)this);
+  for (int i = nchild - 1; i >= 0; --i) tree_free(cx, child[i]);
+  cx.inuse.erase((uintptr_t)this);
+  memset(pat, 0, sizeof pat);
+}
+
+// What happens to the block of an alloc() whose constructor threw is OUTSIDE the property statement (the statement
+// promises "no storage handed out while in use" and "one ctor / one dtor per alloc/free pair", nothing about releasing
+// memory on a constructor exception); the unmodified ObjectPool simply loses it.  Model: after a constructor abort the
+// block belongs to nobody, and the harness reclaims it, so that the heap balance of the case stays exact and
+// LeakSanitizer has nothing to report.  To be valid for every admissible implementation (block lost / released at once
+// / put back on the free list), reclaiming happens only AFTER the pool has been destroyed, and only for a block that
+// the allocator still reports as a live allocation of exactly the pool's block size: a pool that released it or kept
+// it parked has freed it by then (freed chunks stay in ASan's quarantine, so the address cannot have been re-issued
+// within the case).
+size_t reclaim_orphans(Ctx &c) {
+  size_t n = 0;
+  std::sort(c.orphans.begin(), c.orphans.end());
+  c.orphans.erase(std::unique(c.orphans.begin(), c.orphans.end()), c.orphans.end());
+  for (void *p : c.orphans)
+    if (__sanitizer_get_ownership(p) && __sanitizer_get_allocated_size(p) == sizeof(ObjectPool<Node>::Block)) { ::free(p); ++n; }
+  c.orphans.clear();
+  return n;
+}
+
+// walks one tree; membership of a pointer in `inuse` is decided before it is dereferenced
+std::string walk(Ctx &c, Node *n, std::set<Node*> &seen, size_t &count) {
+  auto it = c.inuse.find((uintptr_t)n);
+  if (it == c.inuse.end() || it->second != n) return fmt("tree links to %p which is not a live node", (void*)n);
+  if (!seen.insert(n).second) return fmt("node id %llu at %p is reachable twice (storage handed out twice)", (unsigned long long)n->id, (void*)n);
+  if (!n->intact()) return fmt("the pattern of live node id %llu at %p was disturbed", (unsigned long long)n->id, (void*)n);
+  if (n->nchild < 0 || n->nchild > kMaxKids) return fmt("live node id %llu has %d children", (unsigned long long)n->id, n->nchild);
+  ++count;
+  for (int i = 0; i < n->nchild; ++i) { std::string e = walk(c, n->child[i], seen, count); if (!e.empty()) return e; }
+  return "";
+}
+
+std::string invariants(Ctx &c, const char *after, size_t step) {
+  if (!c.err.empty()) return fmt("step %zu (%s): ", step, after) + c.err;
+  std::set<Node*> seen; size_t count = 0;
+  for (Node *r : c.roots) { std::string e = walk(c, r, seen, count); if (!e.empty()) return fmt("step %zu after %s: ", step, after) + e; }
+  if (count != c.inuse.size()) return fmt("step %zu after %s: %zu nodes reachable from the roots, %zu blocks in use", step, after, count, c.inuse.size());
+  if (c.completed - c.dtor != (int64_t)count) return fmt("step %zu after %s: completed constructors-destructors=%lld but %zu nodes are live", step, after, (long long)(c.completed - c.dtor), count);
+  if (c.entered != c.completed + c.aborted) return fmt("step %zu after %s: %lld constructor entries, %lld completed + %lld aborted", step, after, (long long)c.entered, (long long)c.completed, (long long)c.aborted);
+  if (c.completed != (int64_t)c.m_allocs || c.dtor != (int64_t)c.m_frees)
+    return fmt("step %zu after %s: %lld completed ctor / %lld dtor calls for %zu successful alloc / %zu free", step, after, (long long)c.completed, (long long)c.dtor, c.m_allocs, c.m_frees);
+  auto st = c.pool->getStat();
+  if (st.total_alloc_times != c.m_allocs || st.total_free_times != c.m_frees)
+    return fmt("step %zu after %s: stat alloc/free times %zu/%zu, performed %zu/%zu", step, after, st.total_alloc_times, st.total_free_times, c.m_allocs, c.m_frees);
+  if (st.peak_alloc_number != c.peak_alloc) return fmt("step %zu after %s: stat peak_alloc_number=%zu, real peak %zu", step, after, st.peak_alloc_number, c.peak_alloc);
+  if (st.peak_free_number < c.peak_lo || st.peak_free_number > c.peak_hi)
+    return fmt("step %zu after %s: stat peak_free_number=%zu, expected %zu..%zu with retention limit %lld", step, after, st.peak_free_number, c.peak_lo, c.peak_hi, (long long)c.f.keep);
+  c.f.max_live = std::max(c.f.max_live, count);
+  return "";
+}
+
+// node reached from `root` by following `path` digits as far as children exist
+Node *descend(Node *root, uint64_t path, int steps) {
+  Node *n = root;
+  for (int i = 0; i < steps && n->nchild > 0; ++i) { n = n->child[path % (uint64_t)n->nchild]; path /= 3; }
+  return n;
+}
+
+std::string body(const Scenario &s, Flags &out) {
+  Ctx c;
+  int64_t keep = -1;
+  if (!s.ops.empty() && s.ops[0].code == CFG) keep = kKeep[s.ops[0].in(0, 0, 4)];
+  c.keep = keep < 0 ? std::numeric_limits<size_t>::max() : (size_t)keep;
+  c.f.keep = keep;
+  c.pool.reset(keep < 0 ? new ObjectPool<Node>() : new ObjectPool<Node>((size_t)keep));
+  // once a violation has been seen the pool's internal state cannot be trusted: it is abandoned, not destroyed
+  auto fail = [&](std::string e) { (void)c.pool.release(); out = c.f; return e; };
+
+  // one guarded build: all or nothing
+  auto build = [&](int depth, uint64_t seed, int64_t throw_at, Node *&result, const char *what, size_t step) -> std::string {
+    size_t planned = plan_count(seed, depth);
+    size_t live0 = c.inuse.size();
+    c.build_ordinal = 0; c.throw_at = throw_at;
+    bool threw = false; result = nullptr;
+    try { result = tree_alloc(c, depth, seed); } catch (const Abort &) { threw = true; }
+    c.throw_at = -1;
+    if (!c.err.empty()) return fmt("step %zu (%s): ", step, what) + c.err;
+    if (!c.frames.empty()) return "harness: alloc frames not unwound";
+    bool expect_throw = throw_at >= 0 && (size_t)throw_at < planned;
+    if (threw != expect_throw) return fmt("step %zu (%s): constructor exception %s", step, what, threw ? "escaped although none was thrown" : "was swallowed by alloc");
+    if (threw) { if (c.inuse.size() != live0) return fmt("step %zu (%s): %zu blocks in use after a failed alloc, %zu before", step, what, c.inuse.size(), live0); return ""; }
+    if (!result) return fmt("step %zu (%s): alloc returned nullptr", step, what);
+    std::set<Node*> seen; size_t count = 0;
+    std::string e = walk(c, result, seen, count);
+    if (!e.empty()) return fmt("step %zu (%s): ", step, what) + e;
+    if (count != planned) return fmt("step %zu (%s): new tree has %zu nodes, %zu were constructed by design", step, what, count, planned);
+    return "";
+  };
+
+  std::string e;
+  for (size_t k = 0; k < s.ops.size(); ++k) {
+    const Op &op = s.ops[k];
+    const char *name = "?";
+    switch (op.code) {
+      case BUILD: { name = "build";
+        if (c.inuse.size() > kMaxLive || c.roots.size() >= kMaxRoots) continue;
+        Node *r; e = build((int)op.in(1, 0, kMaxDepth), (uint64_t)op.in(0, 0, 1 << 30), op.in(2, 0, 15) - 1, r, name, k);
+        if (!e.empty()) return fail(e);
+        if (r) c.roots.push_back(r);
+        break; }
+      case DROP: { name = "drop";
+        if (c.roots.empty()) continue;
+        size_t i = (size_t)op.in(0, 0, 1 << 20) % c.roots.size();
+        Node *r = c.roots[i]; c.roots.erase(c.roots.begin() + (long)i);
+        tree_free(c, r);
+        break; }
+      case PRUNE: { name = "prune";
+        if (c.roots.empty()) continue;
+        Node *n = descend(c.roots[(size_t)op.in(0, 0, 1 << 20) % c.roots.size()], (uint64_t)op.in(1, 0, 1 << 20), (int)op.in(2, 0, kMaxDepth));
+        if (n->nchild == 0) continue;
+        int i = (int)(op.in(1, 0, 1 << 20) % n->nchild);
+        Node *k2 = n->child[i];
+        for (int j = i; j + 1 < n->nchild; ++j) n->child[j] = n->child[j + 1];
+        n->child[--n->nchild] = nullptr;
+        tree_free(c, k2); c.f.pruned = true;
+        break; }
+      case GROW: { name = "grow";
+        if (c.roots.empty() || c.inuse.size() > kMaxLive) continue;
+        Node *n = descend(c.roots[(size_t)op.in(0, 0, 1 << 20) % c.roots.size()], (uint64_t)op.in(1, 0, 1 << 20), (int)op.in(2, 0, kMaxDepth));
+        if (n->nchild >= kMaxKids) continue;
+        Node *r; e = build((int)op.in(4, 0, kMaxDepth - 1), (uint64_t)op.in(3, 0, 1 << 30), op.in(5, 0, 15) - 1, r, name, k);
+        if (!e.empty()) return fail(e);
+        if (r) { n->child[n->nchild++] = r; c.f.grew = true; }
+        break; }
+      case LEAVES: { name = "leaves";
+        int64_t n = op.in(0, 1, 70);
+        for (int64_t i = 0; i < n && c.roots.size() < kMaxRoots + 70 && c.inuse.size() <= kMaxLive; ++i) {
+          Node *r; e = build(0, (uint64_t)i, -1, r, name, k);
+          if (!e.empty()) return fail(e);
+          c.roots.push_back(r);
+        }
+        break; }
+      case CHECK: name = "check"; break;
+      default: continue;
+    }
+    e = invariants(c, name, k);
+    if (!e.empty()) return fail(e);
+  }
+  while (!c.roots.empty()) { Node *r = c.roots.back(); c.roots.pop_back(); tree_free(c, r); }
+  e = invariants(c, "drain", s.ops.size());
+  if (!e.empty()) return fail(e);
+  if (!c.inuse.empty()) return fail("harness: blocks in use after drain");
+  c.pool.reset();
+  c.f.reclaimed = reclaim_orphans(c);
+  if (c.f.reclaimed > (uint64_t)c.aborted) return fail("harness: more blocks reclaimed than constructors aborted");
+  out = c.f;
+  return "";
+}
+
+std::string run(const Scenario &s, CaseInfo &info) {
+  Flags f;
+  std::string e = with_leak_check("pool_tree", [&] { return body(s, f); });
+  if (!e.empty()) return e;
+  info.cls(f.keep == 0 ? "keep=0" : f.keep == 1 ? "keep=1" : f.keep == 2 ? "keep=2" : f.keep == 64 ? "keep=64" : "keep=unbounded");
+  info.cls_if(f.nested, "alloc_from_inside_constructor");
+  info.cls_if(f.nested_on_recycled, "constructor_on_recycled_block_allocates");
+  if (f.reclaimed) stats().counters["blocks_lost_by_pool_on_constructor_abort_reclaimed_by_harness"] += f.reclaimed;
+  info.cls_if(f.reclaimed > 0, "pool_lost_block_on_constructor_abort(outside_statement)");
+  info.cls_if(f.threw, "constructor_throws");
+  info.cls_if(f.threw_with_children, "constructor_throws_after_allocating_children");
+  info.cls_if(f.grew, "subtree_grown_from_outside");
+  info.cls_if(f.pruned, "subtree_pruned_from_outside");
+  info.cls_if(f.hit_limit, "retention_limit_reached");
+  info.cls_if(f.max_live >= 40, "live>=40");
+  info.nontrivial = f.nested_on_recycled;
+  return "";
+}
+
+SubDef def = [] {
+  SubDef d; d.name = "pool_tree";
+  d.op_names = {"cfg", "build", "drop", "prune", "grow", "leaves", "check"};
+  d.op_arity = {1, 3, 1, 3, 6, 1, 0};
+  d.nt_rule = "a constructor that runs on a recycled (previously parked) block allocates further objects from the same pool";
+  d.run = run;
+#ifndef VERIF_ENGINE_FUZZ
+  d.gen = [] {
+    auto seed = range(0, 1 << 30), idx = range(0, 5000);
+    auto thr = rc::gen::weightedOneOf<int64_t>({{4, rc::gen::just<int64_t>(0)}, {1, range(1, 4)}, {1, range(1, 15)}});   // 0: no constructor throws, n: the n-th constructed node throws
+    auto opg = rc::gen::weightedOneOf<Op>({
+      {10, mkop(BUILD, {seed, range(0, kMaxDepth), thr})},
+      {8, mkop(DROP, {idx})},
+      {3, mkop(PRUNE, {idx, idx, range(0, kMaxDepth)})},
+      {3, mkop(GROW, {idx, idx, range(0, kMaxDepth), seed, range(0, kMaxDepth - 1), thr})},
+      {1, mkop(LEAVES, {rc::gen::weightedOneOf<int64_t>({{3, range(1, 8)}, {1, range(60, 70)}})})},
+      {1, mkop(CHECK, {})},
+    });
+    return scenarioOf(fixedOps({mkop(CFG, {range(0, 4)})}), opsOf(opg));
+  };
+#endif
+  return d;
+}();
+VERIF_REGISTER(&def);
+}  // namespace ptree
 
 // =====================================================================================================
 // shared descriptor handle
